@@ -239,6 +239,9 @@ func c08Parent(c *Check, bound int) {
 	c.extra["distinct_observations"] = nobs
 	c.extra["worker_processes"] = N
 	c.mu.Unlock()
+	if c.replayKey == "" || strings.HasPrefix(c.replayKey, "data-race:") {
+		freeRacePass(c)
+	}
 }
 
 func init() { register("C08", "model_checking", runC08) }
